@@ -51,6 +51,26 @@ theorem nfsl_begin (inp : List InEdge) (hs : SortedBySrc inp) (v : Nat) (hv : v 
   rw [nfsl_numberOfNodes inp hs] at hv
   exact ⟨(nfsl_nodes inp hs).2 v (by omega), (nfsl_nodes inp hs).2 (v + 1) (by omega)⟩
 
+/-- reading the edge array through the index range between two consecutive offsets gives the
+    sublist of the input with source `v` (shared by the static and the dynamic constructor) -/
+theorem slice_adj (inp : List InEdge) (hs : SortedBySrc inp) (v : Nat) :
+    (List.range' (cntLt inp v) (cntLt inp (v + 1) - cntLt inp v)).map
+      (fun e => ((gt (inp.map fun x => (⟨x.tgt, x.data⟩ : EEntry)).toArray e).tgt,
+                 (gt (inp.map fun x => (⟨x.tgt, x.data⟩ : EEntry)).toArray e).data))
+    = (inp.filter fun e => e.src == v).map fun e => (e.tgt, e.data) := by
+  have hfun : (fun e => ((gt (inp.map fun x => (⟨x.tgt, x.data⟩ : EEntry)).toArray e).tgt,
+                 (gt (inp.map fun x => (⟨x.tgt, x.data⟩ : EEntry)).toArray e).data)) =
+      (fun x : EEntry => (x.tgt, x.data)) ∘ (fun i => (inp.map fun e => (⟨e.tgt, e.data⟩ : EEntry)).getD i default) := by
+    funext e
+    simp only [gt_toArray, Function.comp]
+  rw [hfun, ← List.map_map]
+  rw [map_range'_getD _ _ _ _ (by
+    have := cntLt_mono inp v
+    have := cntLt_le_length inp (v + 1)
+    simp; omega)]
+  rw [← List.map_drop, ← List.map_take, slice_eq_filter inp hs v, List.map_map]
+  rfl
+
 /-- `edge_range(v)` read through `target`/`data` is exactly the sublist of the input with source `v`
     (in input order) -/
 theorem nfsl_adjList (inp : List InEdge) (hs : SortedBySrc inp) (v : Nat)
@@ -59,17 +79,7 @@ theorem nfsl_adjList (inp : List InEdge) (hs : SortedBySrc inp) (v : Nat)
   have hb := nfsl_begin inp hs v hv
   unfold adjList edgeRange
   rw [hb.1, hb.2]
-  have hfun : (fun e => (target (newFromSortedList inp) e, data (newFromSortedList inp) e)) =
-      (fun x : EEntry => (x.tgt, x.data)) ∘ (fun i => (inp.map fun e => (⟨e.tgt, e.data⟩ : EEntry)).getD i default) := by
-    funext e
-    simp only [target, data, newFromSortedList, gt_toArray, Function.comp]
-  rw [hfun, ← List.map_map]
-  rw [map_range'_getD _ _ _ _ (by
-    have := cntLt_mono inp v
-    have := cntLt_le_length inp (v + 1)
-    simp; omega)]
-  rw [← List.map_drop, ← List.map_take, slice_eq_filter inp hs v, List.map_map]
-  rfl
+  exact slice_adj inp hs v
 
 theorem nfsl_outDegree (inp : List InEdge) (hs : SortedBySrc inp) (v : Nat)
     (hv : v < numberOfNodes (newFromSortedList inp)) :
@@ -153,5 +163,77 @@ theorem maxIdLoop_isMaxId (inp l : List InEdge) (hp : l.Perm inp) (hne : inp ≠
   · intro x hx
     obtain ⟨e, he, rfl⟩ := (hmem x).mp hx
     exact hge.2 e he
+
+/-! ### find_edge on any static graph, and on a constructed one -/
+
+theorem findEdge_some (g : Graph) (s t e : Nat) (h : findEdge g s t = some e) :
+    s < numberOfNodes g ∧ e ∈ edgeRange g s ∧ target g e = t ∧ ∀ j ∈ edgeRange g s, j < e → target g j ≠ t := by
+  unfold findEdge at h
+  split at h
+  · cases h
+  · rename_i hs
+    have := findLoop_some g t _ _ e h
+    refine ⟨by omega, List.mem_range'_1.mpr ⟨this.1, this.2.1⟩, this.2.2.1, ?_⟩
+    intro j hj hlt
+    exact this.2.2.2 j (List.mem_range'_1.mp hj).1 hlt
+
+theorem findEdge_none (g : Graph) (s t : Nat) :
+    findEdge g s t = none ↔ numberOfNodes g ≤ s ∨ ∀ e ∈ edgeRange g s, target g e ≠ t := by
+  unfold findEdge
+  split
+  · rename_i hs; simp; left; omega
+  · rename_i hs
+    rw [findLoop_none]
+    constructor
+    · intro h; right
+      intro e he
+      have := List.mem_range'_1.mp he
+      exact h e this.1 this.2
+    · intro h
+      rcases h with h | h
+      · omega
+      · intro j h1 h2
+        exact h j (List.mem_range'_1.mpr ⟨h1, h2⟩)
+
+theorem findEdgeUnchecked_eq (g : Graph) (s t : Nat) :
+    findEdgeUnchecked g s t = (findEdge g s t).getD maxId := by
+  unfold findEdgeUnchecked findEdge
+  split
+  · rfl
+  · split <;> simp_all
+
+/-- on a graph built from a list sorted by source, `find_edge(s,t)` answers iff the list has an edge s→t -/
+theorem nfsl_findEdge_isSome (inp : List InEdge) (hs : SortedBySrc inp) (s t : Nat) :
+    (findEdge (newFromSortedList inp) s t).isSome ↔ ∃ d, (⟨s, t, d⟩ : InEdge) ∈ inp := by
+  constructor
+  · intro h
+    obtain ⟨e, he⟩ := Option.isSome_iff_exists.mp h
+    obtain ⟨hlt, hr, ht, _⟩ := findEdge_some _ s t e he
+    have hm : (target (newFromSortedList inp) e, data (newFromSortedList inp) e) ∈ adjList (newFromSortedList inp) s :=
+      List.mem_map.mpr ⟨e, hr, rfl⟩
+    rw [nfsl_adjList inp hs s hlt] at hm
+    obtain ⟨x, hx, hp⟩ := List.mem_map.mp hm
+    have hx' := List.mem_filter.mp hx
+    refine ⟨x.data, ?_⟩
+    have e1 : x.src = s := by simpa using hx'.2
+    have e2 : x.tgt = t := by rw [← ht]; exact congrArg Prod.fst hp
+    have : x = ⟨s, t, x.data⟩ := by cases x; simp_all
+    exact this ▸ hx'.1
+  · rintro ⟨d, hd⟩
+    have hlt : s < numberOfNodes (newFromSortedList inp) := by
+      rw [nfsl_numberOfNodes inp hs]
+      have := (maxIdLoop_ge inp 0).2 _ hd
+      simp only at this; omega
+    cases hf : findEdge (newFromSortedList inp) s t with
+    | some e => rfl
+    | none =>
+      exfalso
+      rcases (findEdge_none _ s t).mp hf with h | h
+      · omega
+      · have hm : (t, d) ∈ adjList (newFromSortedList inp) s := by
+          rw [nfsl_adjList inp hs s hlt]
+          exact List.mem_map.mpr ⟨_, List.mem_filter.mpr ⟨hd, by simp⟩, rfl⟩
+        obtain ⟨e, he, hp⟩ := List.mem_map.mp hm
+        exact h e he (congrArg Prod.fst hp)
 
 end Tbx.SG
